@@ -13,7 +13,8 @@ import numpy as np
 
 from sim import core
 from sim.fsseam import FsSeam
-from sim.preds import gen_level_pred, gen_position_pred, gen_value_pred, level_accepts, level_func, value_accepts, value_func
+from sim.preds import (gen_level_pred, gen_position_pred, gen_value_pred, interval_accepts, interval_func, level_accepts, level_func, value_accepts,
+                       value_func)
 from sim.wcheck import Disk, compare_full, gen_world_params
 from checks.c01 import world_reductions
 
@@ -27,7 +28,7 @@ RULE = ("one run = one world + one level predicate (optionally ANDed with one va
         "distinct = hash of (world, predicates); non-trivial = the highest accepted level L is below levelmax and at least one level-L cell is refined on disk")
 ASSUMPTIONS = [
     "a predicate accepting no level is outside the property (the loader cannot define L) and is not generated",
-    "position predicates are combined only with non-Hilbert orderings here (CPU pre-selection is C04's subject)",
+    "compact position boxes on Hilbert worlds are included (level cap and CPU pre-selection together); interval boxes contain at least one finest-level centre per axis",
     "thresholds of value/position predicates never coincide with a stored value or a cell centre",
 ]
 REAL_STUB = {
@@ -49,8 +50,20 @@ def generate(rng, tier):
     preds = {"level": gen_level_pred(rng, p["levelmin"], p["levelmax"]), "values": [], "positions": []}
     if rng.random() < 0.35:
         preds["values"].append(gen_value_pred(rng, p, ncells_hint=rng.choice([8, 64, 300, 2000])))
-    if rng.random() < 0.3 and p["ordering"] != "hilbert":
-        preds["positions"].append(gen_position_pred(rng, p["ndim"]))
+    r = rng.random()
+    if r < 0.3:
+        pp = gen_position_pred(rng, p["ndim"])
+        # the precondition of the CPU pre-selection: at least one finest-level centre satisfies the predicate
+        n = 2 ** p["levelmax"]
+        cen = [(i + 0.5) / n for i in range(n)]
+        if any({"gt": c > pp["frac"], "lt": c < pp["frac"], "ge": c >= pp["frac"], "le": c <= pp["frac"]}[pp["op"]] for c in cen):
+            preds["positions"].append(pp)
+    elif r < 0.45 and p["ordering"] == "hilbert" and p["ndim"] == 3:
+        # a compact box on all three axes: the CPU pre-selection is active together with the level cap
+        from sim.preds import gen_interval
+
+        kind = rng.choice(["leaf", "few", "few"])
+        preds["intervals"] = [gen_interval(rng, c, p["levelmax"], kind=kind) for c in "xyz"]
     return {"world": p, "preds": preds, "also": rng.choice([None, None, "part_off", "sink_off", "mesh_vars"])}
 
 
@@ -77,6 +90,8 @@ def execute(case, stats):
         sel = {"level": level_func(pr["level"])}
         for s in pr["values"] + pr["positions"]:
             sel[s["var"]] = value_func(s, w)
+        for s in pr.get("intervals", []):
+            sel[s["var"]] = interval_func(s, w)
         select = {"mesh": sel}
         if case["also"] == "part_off":
             select["part"] = False
@@ -92,7 +107,10 @@ def execute(case, stats):
             return res
         stats.inc("steps.files_opened", len(seam.trace))
         trunc = w.leaves(lmax=L)
-        expect = [c for c in trunc if level_accepts(pr["level"], c["level"]) and all(value_accepts(s, w, c) for s in pr["values"] + pr["positions"])]
+        expect = [c for c in trunc if level_accepts(pr["level"], c["level"]) and all(value_accepts(s, w, c) for s in pr["values"] + pr["positions"])
+                  and all(interval_accepts(s, w, c) for s in pr.get("intervals", []))]
+        if pr.get("intervals"):
+            stats.inc("probe.level_cap_with_position_box_on_hilbert_world")
         refined_at_L = sum(1 for c in trunc if c["level"] == L and c["refined"])
         res["nontrivial"] = bool(L < w.levelmax and refined_at_L > 0)
         if refined_at_L:
@@ -114,7 +132,7 @@ def execute(case, stats):
             return res
         for cls, clause, detail in compare_full(ds, w, expect_rows=expect):
             V(cls, clause, dict(detail, L=L, levelmax=w.levelmax))
-        if not viol and all(level_accepts(pr["level"], l) for l in range(1, L + 1)) and not pr["values"] and not pr["positions"]:
+        if not viol and all(level_accepts(pr["level"], l) for l in range(1, L + 1)) and not pr["values"] and not pr["positions"] and not pr.get("intervals"):
             # tiling: the rows cover the domain exactly once
             dx = np.asarray(ds["mesh"]["dx"].values, dtype=float)
             box = w.boxlen * w.unit_l
@@ -131,7 +149,7 @@ def execute(case, stats):
 def measure(case):
     p = case["world"]
     pr = case["preds"]
-    return (p["ncpu"], p["levelmax"], p["ndim"], len(pr["values"]) + len(pr["positions"]), len(p["hydro_vars"]), p["maxcells"], p["nboundary"],
+    return (p["ncpu"], p["levelmax"], p["ndim"], len(pr["values"]) + len(pr["positions"]) + len(pr.get("intervals", [])), len(p["hydro_vars"]), p["maxcells"], p["nboundary"],
             int(bool(p["grav"])) + int(bool(p["rt_vars"])) + int(p["part"] is not None) + int(p["sink"] is not None),
             int(p["units"] != [1.0, 1.0, 1.0]), int(p["ghost_p"] * 10), int(case["also"] is not None), int(pr["level"]["kind"] != "le"))
 
@@ -141,13 +159,17 @@ def reductions(case, viol):
     for q in world_reductions(case["world"]):
         if any(s["var"] not in q["hydro_vars"] for s in pr["values"]):
             continue
-        if any("xyz".index(s["var"][-1]) >= q["ndim"] for s in pr["positions"]):
+        if any("xyz".index(s["var"][-1]) >= q["ndim"] for s in pr["positions"] + pr.get("intervals", [])):
+            continue
+        if pr.get("intervals") and q["levelmax"] != case["world"]["levelmax"]:
             continue
         yield dict(case, world=q)
     if pr["values"]:
         yield dict(case, preds=dict(pr, values=[]))
     if pr["positions"]:
         yield dict(case, preds=dict(pr, positions=[]))
+    if pr.get("intervals"):
+        yield dict(case, preds=dict(pr, intervals=[]))
     if case["also"]:
         yield dict(case, also=None)
     if pr["level"]["kind"] != "le":
